@@ -255,6 +255,8 @@ def wrappers(rel, which=None):
         "star": lambda: select([derived(rel, "s")], [("*", None)]),
         "qstar": lambda: select([derived(rel, "s")], [(("qstar", "s"), None)]),
         "expr": lambda: select([derived(rel, "s")], [([R("s", c0), " + ", R("s", c1)], "o0"), (["1"], "o1")]),
+        # the same source column read by two projections, the first one with further inputs (memoised sub-lineages are shared)
+        "reuse": lambda: select([derived(rel, "s")], [([R("s", c0), " + ", R("s", c1)], "o0"), ([R("s", c0)], "o1"), ([R("s", c1)], "o2")]),
         "collist": lambda: select([derived(rel, "s", lst)], [([R("s", lst[-1])], "o0"), ([R("s", lst[0])], "o1")]),
         "collist-star": lambda: select([derived(rel, "s", lst)], [("*", None)]),
         "join-base": lambda: select([derived(rel, "s"), u], [([R("s", c0)], "o0"), ([R("u", "d")], "o1")], on=[R("s", c1), " = ", R("u", "a")]),
@@ -328,6 +330,15 @@ def _lineage(col, text, sources, dialect):
     return ("ok", leaves(node))
 
 
+def _lineage_all(text, sources, dialect):
+    """lineage(None, ...): ('ok', {output name: leaves}) | ('exc', class name, message)"""
+    try:
+        nodes = lineage(None, text, schema=SCHEMA, sources=sources, dialect=dialect)
+    except Exception as e:
+        return ("exc", type(e).__name__, str(e)[:160])
+    return ("ok", {k: leaves(v) for k, v in nodes.items()})
+
+
 def _fmt(s):
     return sorted(f"{a}.{b}" for a, b in s)
 
@@ -338,6 +349,10 @@ def check(item):
     cols = columns(q)
     viol, evals, calls = [], 0, 0
     names = [n for n, _, _ in cols]
+    # all-columns mode: one call for every output column, with a cache shared between the columns -- each column's leaves
+    # must be what asking for that column alone gives
+    all_cols = {form: _lineage_all(text, sources, dialect) for form, (text, sources) in fs.items() if form in ("derived", "cte", "sources")}
+    calls += len(all_cols)
     for name, flow, feats in cols:
         if names.count(name) > 1:
             continue  # an ambiguous output name cannot be asked for by name
@@ -358,6 +373,16 @@ def check(item):
                 viol.append((f"c17:missing-leaf:{fam}", f"lineage({name!r}, {fs['derived'][0]!r}): leaves {_fmt(d[1])}, flow {_fmt(want)}", dict(inp, form="derived")))
             elif d[1] - want:
                 viol.append((f"c17:extra-leaf:{fam}", f"lineage({name!r}, {fs['derived'][0]!r}): leaves {_fmt(d[1])}, flow {_fmt(want)}", dict(inp, form="derived")))
+        for form, ac in all_cols.items():
+            g = got[form]
+            text, sources = fs[form]
+            shown = text if not sources else f"{text} with sources={sources}"
+            if ac[0] == "exc":
+                if g[0] == "ok":
+                    viol.append((f"c17:exception:{ac[1]}:all-columns:{qfam}", f"lineage(None, {shown!r}) raised {ac[1]}: {ac[2]}", dict(inp, form=form, all_columns=True)))
+            elif g[0] == "ok" and ac[1].get(name) != g[1] and name in ac[1]:
+                viol.append((f"c17:all-columns-differs:{fam}", f"lineage(None, {shown!r})[{name!r}]: leaves {_fmt(ac[1][name])}; lineage({name!r}, ...): {_fmt(g[1])}; flow {_fmt(want)}",
+                             dict(inp, form=form, all_columns=True)))
         for form, clause in (("cte", "cte-form-differs"), ("sources", "sources-form-differs"), ("rename", "alias-renaming-differs")):
             g = got[form]
             text, sources = fs[form]
@@ -368,6 +393,38 @@ def check(item):
                 viol.append((f"c17:{clause}:{fam}", f"lineage({name!r}, {shown!r}): leaves {_fmt(g[1])}; derived-table form {fs['derived'][0]!r}: {_fmt(d[1])}; flow {_fmt(want)}",
                              dict(inp, form=form)))
     return evals, calls, viol, len(fs["derived"][0])
+
+
+# Name shadowing between WITH clauses of different nesting levels: a sibling CTE of the inner WITH reads the INNER definition.
+# (sql, sources, {output: {(table, column)}}); the model generator above never reuses a CTE name.
+SHADOWING = [
+    ("WITH base AS (SELECT a AS x FROM t) SELECT m.x AS o0, base.x AS o1 FROM (WITH base AS (SELECT d AS x FROM u), fin AS (SELECT x FROM base) SELECT x FROM fin) AS m CROSS JOIN base",
+     None, {"o0": {("u", "d")}, "o1": {("t", "a")}}),
+    ("WITH base AS (SELECT a AS x FROM t), outer2 AS (WITH base AS (SELECT d AS x FROM u), fin AS (SELECT x FROM base) SELECT x FROM fin) SELECT outer2.x AS o0, base.x AS o1 FROM outer2 CROSS JOIN base",
+     None, {"o0": {("u", "d")}, "o1": {("t", "a")}}),
+    ("WITH base AS (SELECT a AS x FROM t) SELECT (WITH base AS (SELECT d AS x FROM u), fin AS (SELECT MAX(x) AS x FROM base) SELECT x FROM fin) AS o0, base.x AS o1 FROM base",
+     None, {"o0": {("u", "d")}, "o1": {("t", "a")}}),
+    ("WITH base AS (SELECT a AS x FROM t) SELECT m.x AS o0, base.x AS o1 FROM model AS m CROSS JOIN base",
+     {"model": "WITH base AS (SELECT d AS x FROM u), fin AS (SELECT x FROM base) SELECT x FROM fin"}, {"o0": {("u", "d")}, "o1": {("t", "a")}}),
+    ("WITH c AS (SELECT a AS x FROM t), d AS (SELECT x FROM c) SELECT d.x AS o0 FROM (WITH c AS (SELECT d AS x FROM u), d AS (SELECT x FROM c) SELECT x FROM d) AS d",
+     None, {"o0": {("u", "d")}}),
+]
+
+
+def check_shadowing(i):
+    sql, sources, flows = SHADOWING[i]
+    viol, evals, calls = [], 0, 0
+    for name, want in flows.items():
+        g = _lineage(name, sql, sources, None)
+        calls += 1
+        evals += 1
+        inp = {"path": f"shadowing.{i}", "column": name, "dialect": None, "form": "as-written"}
+        shown = sql if not sources else f"{sql} with sources={sources}"
+        if g[0] == "exc":
+            viol.append((f"c17:exception:{g[1]}:shadowing", f"lineage({name!r}, {shown!r}) raised {g[1]}: {g[2]}", inp))
+        elif g[1] != want:
+            viol.append((f"c17:{'missing-leaf' if want - g[1] else 'extra-leaf'}:shadowing", f"lineage({name!r}, {shown!r}): leaves {_fmt(g[1])}, flow {_fmt(want)}", inp))
+    return evals, calls, viol, len(sql)
 
 
 def items_for(tier):
@@ -389,6 +446,8 @@ def run(tier, seed):
     res = harness.pool_map(check, [items[i] for i in order])
     best, counts, raw = {}, {}, []
     evals = calls = 0
+    res = list(res) + [check_shadowing(i) for i in range(len(SHADOWING))]
+    order = list(order) + [None] * len(SHADOWING)
     for i, (e, c, viol, size) in zip(order, res):
         evals += e
         calls += c
@@ -424,6 +483,10 @@ def replay(entry):
     match = [q for p, q in queries("thorough" if inp["path"].count(">") > 3 else "quick") if p == inp["path"]]
     if not match:
         match = [q for p, q in queries("thorough") if p == inp["path"]]
+    if inp["path"].startswith("shadowing."):
+        _, _, viol, _ = check_shadowing(int(inp["path"].split(".")[1]))
+        hits = [(k, w) for k, w, i in viol if k == entry["key"] and i["column"] == inp["column"]]
+        return {"violated": bool(hits), "observed": hits[0][1] if hits else "contract holds"}
     if not match:
         return {"violated": False, "observed": "path is not in the generated space"}
     _, _, viol, _ = check((inp["path"], match[0], inp.get("dialect")))
